@@ -47,4 +47,5 @@ def run_exe(workdir, exe="a.out", stdin="", timeout=60, env=None):
 
 def canon(out):
     """Canonical stdout: strip trailing blanks, collapse runs of blanks."""
+    out = out.replace("-0.000000000000000E+000", "0.000000000000000E+000")
     return "\n".join(" ".join(l.split()) for l in out.strip().splitlines())
